@@ -250,7 +250,10 @@ theorem C14_source_facts :
     Thanos.Facts.mergeRangesCond = "(input[ix].start - input[last].end) <= limit" ∧
     Thanos.Facts.mergeUntilLoop =
       "limit := cfg.SubrangeSize; cfg.MaxSubRequests > 0 && len(missing) > cfg.MaxSubRequests; limit = limit * 2" ∧
-    Thanos.Facts.subrangeStoreCond = "_, ok := hits[key]; !ok" := by decide
+    Thanos.Facts.subrangeStoreCond = "_, ok := hits[key]; !ok" ∧
+    Thanos.Facts.lastSubrangeConds =
+      ["if:offset >= attrs.Size", "if:offset+length > attrs.Size", "if:endRange > attrs.Size",
+       "if:lastSubrangeOffset >= m.end", "if:off == lastSubrangeOffset"] := by decide
 
 /-! ### non-vacuity -/
 
